@@ -43,6 +43,8 @@ class Model(object):
         self.driver = driver  # "f", "c", "py"
         self.h = [None] * NH  # handle: {"oid":…, "released": bool}
         self.bx = [None] * NH
+        self.hi = [None] * NH  # Holder<int> / Holder<double>: two instantiations of one class template
+        self.hd = [None] * NH
         self.caps = [None] * NC  # hand id or None
         self.objs = {}  # oid -> {"value", "alive", "owner"}
         self.next_oid = 1
@@ -117,7 +119,7 @@ class Model(object):
             self.py_unref(old)
 
     def py_unref(self, hd):
-        if any(x is hd for x in self.h) or any(x is hd for x in self.bx):
+        if any(x is hd for t in (self.h, self.bx, self.hi, self.hd) for x in t):
             return
         o = self.objs[hd["oid"]]
         if o["owner"] == "caller" and o["alive"]:
@@ -174,6 +176,74 @@ class Model(object):
             self.hit("release_library_owned")
         hd["released"] = True  # addr is cleared either way
         return self.expect(())
+
+    # ---- Holder<int>, Holder<double>
+    def holder_table(self, k):
+        return self.hi if k == "i" else self.hd
+
+    def hold_new(self, k, s, v):
+        self.put(self.holder_table(k), s, self.fresh(self.new_obj(v, kind="hold_" + k)))
+        return self.expect(())
+
+    def hold_get(self, k, s):
+        return self.expect((self.usable(s, self.holder_table(k))["value"],))
+
+    def hold_put(self, k, s, v):
+        self.usable(s, self.holder_table(k))["value"] = v
+        return self.expect(())
+
+    def hold_delete(self, k, s, release=False):
+        t = self.holder_table(k)
+        if self.driver == "py":
+            if release:
+                raise Invalid("c only")
+            if t[s] is not None:
+                self.put(t, s, None)
+            return self.expect(())
+        if release and self.driver != "c":
+            raise Invalid("c only")
+        hd = self.handle(s, t)
+        if hd["released"]:
+            self.hit("holder_release_again")
+            return self.expect(())
+        o = self.objs[hd["oid"]]
+        if not o["alive"]:
+            raise Invalid("dangling")
+        o["alive"] = False
+        hd["released"] = True
+        if release:
+            self.hit("holder_released_through_capsule")
+        return self.expect(())
+
+    def op_hi_new(self, s, v, _t):
+        return self.hold_new("i", s, v)
+
+    def op_hd_new(self, s, v, _t):
+        return self.hold_new("d", s, v)
+
+    def op_hi_get(self, s, _b, _t):
+        return self.hold_get("i", s)
+
+    def op_hd_get(self, s, _b, _t):
+        return self.hold_get("d", s)
+
+    def op_hi_put(self, s, v, _t):
+        return self.hold_put("i", s, v)
+
+    def op_hd_put(self, s, v, _t):
+        return self.hold_put("d", s, v)
+
+    def op_hi_delete(self, s, _b, _t):
+        return self.hold_delete("i", s)
+
+    def op_hd_delete(self, s, _b, _t):
+        return self.hold_delete("d", s)
+
+    def op_hi_release(self, s, _b, _t):
+        return self.hold_delete("i", s, release=True)
+
+    def op_hd_release(self, s, _b, _t):
+        return self.hold_delete("d", s, release=True)
 
     # ---- plain C string API
     def op_cstr_ref(self, _a, _b, _t):
@@ -494,6 +564,29 @@ class Model(object):
     def op_arr_sum(self, n, _b, _t):
         return self.expect((sum(3 * i for i in range(1, n + 1)) + 1000000 * n,))
 
+    def op_arr_weights(self, n, nw, _t):
+        vals = [i + 1 for i in range(n)]
+        w = [2 + j for j in range(nw)]
+        out = [v * (w[i % nw] if nw else 1) for i, v in enumerate(vals)]
+        return self.expect((n, sum(out)))
+
+    def op_bad_arr_weights(self, _a, _b, _t):
+        # Python: the first list converts, a later one does not: the wrapper leaves through fail:
+        if self.driver != "py":
+            raise Invalid("python only")
+        return self.expect(None)
+
+    def op_char_arr_none(self, n, ln, _t):
+        # Python: None items become NULL pointers (which the library counts as 50)
+        if self.driver != "py":
+            raise Invalid("python only")
+        tot = 0
+        for i in range(1, n + 1):
+            tot += 50 if (i + ln) % 3 == 0 else ((i - 1) % (ln + 1)) + 100
+        if n:
+            self.hit("char_array_with_none_items")
+        return self.expect((tot,))
+
     def op_bad_arr_sum(self, _a, _b, _t):
         if self.driver != "py":
             raise Invalid("python only")
@@ -572,6 +665,7 @@ class Model(object):
 OPS_COMMON = ["item_default", "item_val", "item_delete", "item_value", "item_set", "item_label", "item_twin",
               "make_item", "borrow_item", "default_item", "copy_item", "use_item", "sum_items", "assign",
               "make_box", "box_new", "box_value",
+              "hi_new", "hd_new", "hi_get", "hd_get", "hi_put", "hd_put", "hi_delete", "hd_delete", "arr_weights",
               "str_ref", "str_val", "str_owned", "str_lib", "str_in", "str_out", "str_inout",
               "char_out", "char_ret", "char_inout",
               "vec_sum", "vec_iota", "vec_inc", "vec_alloc", "vec_ret", "vec_str_count",
@@ -601,7 +695,8 @@ def gen_op(rng, model, enabled, uniq):
     else:
         s = rng.randrange(NH)
         t = rng.randrange(NH)
-    if name in ("item_val", "make_item", "copy_item", "item_set", "make_box", "box_new"):
+    if name in ("item_val", "make_item", "copy_item", "item_set", "make_box", "box_new", "hi_new", "hd_new",
+                "hi_put", "hd_put"):
         return [name, s, uniq()]
     if name in ("cstr_ref", "cstr_lib"):
         return [name]
@@ -612,7 +707,8 @@ def gen_op(rng, model, enabled, uniq):
     if name == "cstr_out":
         return [name, 0, lengths(rng)]
     if name in ("item_default", "borrow_item", "default_item", "item_delete", "item_value", "item_label",
-                "use_item", "box_value", "item_release", "ref_item"):
+                "use_item", "box_value", "item_release", "ref_item", "hi_get", "hd_get", "hi_delete", "hd_delete",
+                "hi_release", "hd_release"):
         return [name, s]
     if name == "vec_dot":
         return [name, lengths(rng), lengths(rng)]
@@ -653,6 +749,12 @@ def gen_op(rng, model, enabled, uniq):
     if name == "char_out":
         text = rng.choice([x for x in TEXTS if len(x) <= 19])
         return [name, rng.choice([len(text) + 1, len(text) + 2, 20, 21, 33]), 0, text]
+    if name == "arr_weights":
+        return [name, lengths(rng), rng.choice([0, 1, 2, 3, 7])]
+    if name == "bad_arr_weights":
+        return [name, rng.choice([0, 1, 3, 6, 40]), rng.randrange(12)]
+    if name == "char_arr_none":
+        return [name, rng.choice([0, 1, 2, 3, 6, 9]), rng.choice([1, 2, 4, 9])]
     if name == "char_arr":
         return [name, rng.choice([0, 1, 2, 3, 6]), rng.choice([1, 2, 4, 9])]
     if name in ("pair_sum", "pair_ptr", "pair_ret", "pair_ret_ptr"):
@@ -684,15 +786,16 @@ def gen_op(rng, model, enabled, uniq):
 
 LEAKABLE = ["item_value", "item_label", "use_item", "sum_items", "item_combine", "vec_dot", "box_value", "str_ref", "str_val", "str_lib",
             "str_in", "str_ptr_in", "str_val_in", "char_ret_len", "str_out", "str_inout", "char_out", "char_ret", "vec_sum", "vec_iota", "vec_alloc", "vec_ret",
-            "arr_lib", "arr_sum", "arr_fill_out", "char_arr", "bad_vec_sum", "bad_arg", "bad_arr_sum"]
-PY_ONLY = ["box_delete", "bad_vec_sum", "bad_arg", "nomem", "bad_arr_sum"] + ["leak_" + n for n in LEAKABLE]
+            "arr_lib", "arr_sum", "arr_fill_out", "char_arr", "bad_vec_sum", "bad_arg", "bad_arr_sum",
+            "hi_get", "hd_get", "arr_weights", "bad_arr_weights", "char_arr_none"]
+PY_ONLY = ["box_delete", "bad_vec_sum", "bad_arg", "nomem", "bad_arr_sum", "bad_arr_weights", "char_arr_none"] + ["leak_" + n for n in LEAKABLE]
 # char_inout: the Python wrapper hands the str object's own UTF-8 buffer to the library, which
 # upper-cases it in place and thereby corrupts interned strings of the interpreter (a C03 defect;
 # it would make later *values* wrong, so the op is not generated for Python)
 NOT_PY = ["copy_item", "vec_inc", "vec_str_count", "cap_delete", "cap_scope", "char_inout", "char_grow", "vec_ret_d", "vec_iota_d", "vec_ret_l", "vec_inout_alloc", "pass_item"]
 
 
-C_ONLY = ["item_release", "box_release", "cstr_ref", "cstr_lib", "cstr_owned", "cstr_in", "cstr_out", "cstr_inout"]
+C_ONLY = ["item_release", "box_release", "hi_release", "hd_release", "cstr_ref", "cstr_lib", "cstr_owned", "cstr_in", "cstr_out", "cstr_inout"]
 
 
 C_SUBJECT_OPS = ["char_out", "char_ret", "char_ret_len", "char_inout", "char_grow", "char_arr", "arr_lib"]
@@ -729,6 +832,12 @@ def targeted_op(rng, m, enabled, uniq):
     for s, hd in enumerate(m.bx):
         if hd is not None:
             cands += [["box_value", s], ["box_delete", s], ["box_release", s], ["make_box", s, uniq()]]
+    for k, t in (("hi", m.hi), ("hd", m.hd)):
+        for s, hd in enumerate(t):
+            if hd is not None:
+                cands += [[k + "_delete", s], [k + "_release", s]]
+                if not hd["released"]:
+                    cands += [[k + "_get", s], [k + "_put", s, uniq()]]
     for c, hid in enumerate(m.caps):
         if hid is not None:
             cands += [["cap_delete", c], ["cap_delete", c], ["arr_new", lengths(rng), c], ["arr_pat", lengths(rng), c]]
@@ -743,7 +852,8 @@ def gen_sequence(rng, driver, length, enabled=None):
     m.hot_slots = rng.sample(range(NH), rng.choice([1, 2, 2, 3]))
     # handle ops are always available to the targeted draws, whatever the swarm subset is
     core = [o for o in ops_for(driver) if o in ("item_delete", "item_release", "cap_delete", "box_delete",
-                                                 "box_release", "make_item", "item_val", "arr_new", "arr_pat")]
+                                                 "box_release", "make_item", "item_val", "arr_new", "arr_pat",
+                                                 "hi_new", "hd_new", "hi_delete", "hd_delete", "hi_release", "hd_release")]
     counter = [0]
 
     def uniq():
@@ -799,6 +909,11 @@ def final_cleanup_ops(driver, ops):
             if o["alive"] and o["owner"] == "caller" and o["kind"] == "item" and hd["oid"] not in seen:
                 seen.add(hd["oid"])
                 out.append(["item_delete", s])
+    for k, t in (("hi", m.hi), ("hd", m.hd)):
+        for s, hd in enumerate(t):
+            if hd and not hd["released"] and m.objs[hd["oid"]]["alive"] and hd["oid"] not in seen:
+                seen.add(hd["oid"])
+                out.append([k + "_delete", s])
     for c, hid in enumerate(m.caps):
         if hid is not None and hid in m.hands:
             out.append(["cap_delete", c])
